@@ -170,7 +170,7 @@ def obligations(tier):
                harness='C19_plot', func='interp_points', timeout=1500, tiers=('thorough',)),
             Ob('svg_curves_inside_own_track', 'ch', 'reference-encoded LIS log pass (25 frames, signal crossing zero, amplitudes 4 / 40 / 400 on a -8..8 linear or 0.25..2048 log scale) '
                'plotted through PlotReadLIS with a FILM table and a PRES table of 1..2 curves: tracks T1/T2/T3/T23 (first curve also the six half tracks LHTn/RHTn and T12; track extents from an independent table of the API three-track film) x modes none/WRAP/SHIF/GRAD per curve, '
-               'both curves from one output channel or from two; frame X recorded in FEET or in tenth-inches (plot range always in FEET)',
+               'both curves from one output channel or from two; frame X recorded in FEET or in tenth-inches (plot range always in FEET); up and down logs, with and without the API header (CONS table)',
                ['util.plot.Plot.PlotReadLIS.plotLogPassLIS', 'Plot.Plot._plotSingleOutput/_interpolateBackup/_retInterpolateWrapPoints', 'PRESCfg.PresCfgLISRead', 'FILMCfg.FilmCfgLISRead.interpretTrac',
                 'PRESCfg.LineTransLin/LineTransLog10.wrapPos', 'util.plot.SVGWriter', 'LIS.core.LogPass.setFrameSet'],
                harness='C19_svg', func='svg_curves_in_track', timeout=170 if q else 600, parts=44),
